@@ -230,7 +230,9 @@ impl<'a> Msg<'a> {
             measure::MEASURE => Ok(Msg::Ms(measure::Msg::from_raw_msg(m)?)),
             install::INSTALL => Ok(Msg::Ins(install::Msg::from_raw_msg(m)?)),
             ready::READY => Ok(Msg::Rdy(ready::Msg::from_raw_msg(m)?)),
-            update_field::UPDATE_FIELD => unimplemented!(),
+            update_field::UPDATE_FIELD => Err(super::Error(String::from(
+                "received an update-fields message, which only a datapath can handle",
+            ))),
             _ => Ok(Msg::Other(m)),
         }
     }
